@@ -1889,6 +1889,62 @@ theorem leaf_ok {sch : Schema} {black : Bool} {m : Mask} {d : Ty} {P : List APat
         have := hall p (by simp)
         simp [h1] at this
 
+/-- a node at which a complete path may end without conflict has nothing below it -/
+theorem leaf_shape {sch : Schema} {black : Bool} {m : Mask} {d : Ty} {P : List APath}
+    (hm : RepF sch black d m P) (hnc : (P ++ [[]]).Pairwise NC) :
+    m.all = .none ∧ m.NoKids := by
+  have hall : ∀ p ∈ P, p = [] := by
+    intro p hp
+    rw [List.pairwise_append] at hnc
+    exact NC_nil_right (hnc.2.2 p hp [] (by simp))
+  have hall' : ∀ p ∈ P ++ [[]], p = [] := by
+    intro p hp
+    rw [List.mem_append] at hp
+    cases hp with
+    | inl h => exact hall p h
+    | inr h => simpa using h
+  cases hm with
+  | inl hf =>
+    obtain ⟨rfl, _, hal, hb, hnk⟩ := hf
+    obtain ⟨typ, isAll, isBlack, all, fdA, fd, intA, ints, strA, strs⟩ := m
+    exact ⟨hal, hnk⟩
+  | inr hr =>
+    cases hr with
+    | leaf ht hb hne _ hia hal hnk =>
+      exact ⟨hal, hnk⟩
+    | star s a cu ht hb hne hs hall2 hia hal hnk hcu hat hr =>
+      cases P with
+      | nil => exact absurd rfl hne
+      | cons p P' =>
+        obtain ⟨t, h1⟩ := hall2 p (by simp)
+        have := hall p (by simp)
+        simp [h1] at this
+    | spec ht hb hne hall2 hia hhc hfd hkind hnd hno hyes hrec =>
+      cases P with
+      | nil => exact absurd rfl hne
+      | cons p P' =>
+        obtain ⟨k, t, h1, _⟩ := hall2 p (by simp)
+        have := hall p (by simp)
+        simp [h1] at this
+
+
+theorem Mask.endPath_eq {m : Mask} (cfg : Sites) (hal : m.all = .none) (hnk : m.NoKids) :
+    m.endPath cfg = m.setIsAll true := by
+  obtain ⟨typ, isAll, isBlack, all, fdA, fd, intA, ints, strA, strs⟩ := m
+  obtain ⟨h1, h2, h3, h4, h5, h6⟩ := hnk
+  simp only [Mask.all, Mask.fd, Mask.ints, Mask.strs, Mask.fdA, Mask.intA, Mask.strA] at hal h1 h2 h3 h4 h5 h6
+  subst hal h1 h2 h3 h4 h5 h6
+  unfold Mask.endPath
+  split <;> rfl
+
+/-- end of path, for either behaviour of `prefixKeeps`: without conflict there is nothing to drop -/
+theorem leaf_ok' {sch : Schema} {black : Bool} {m : Mask} {d : Ty} {P : List APath} (cfg : Sites)
+    (hm : RepF sch black d m P) (ht : m.typ ≠ .invalid) (hnc : (P ++ [[]]).Pairwise NC) :
+    Rep sch black d (m.endPath cfg) (P ++ [[]]) := by
+  obtain ⟨hal, hnk⟩ := leaf_shape hm hnc
+  rw [Mask.endPath_eq cfg hal hnk]
+  exact leaf_ok hm ht hnc
+
 /-- **the token loop establishes the representation invariant** for the meaning `shadow` gives to the path -/
 theorem addLoop_recOK {cfg : Sites} {sch : Schema} {black : Bool} (huniq : sch.uniqueIds = true) :
     ∀ fuel, RecOK cfg sch black (addLoop cfg sch fuel) (shadow cfg sch fuel) := by
@@ -1928,10 +1984,11 @@ theorem addLoop_recOK {cfg : Sites} {sch : Schema} {black : Bool} (huniq : sch.u
         · simp at hsh
         · rename_i ht
           simp only [Res.ok.injEq] at hsh; subst hsh
-          refine ⟨_, rfl, leaf_ok hm ht (by simpa [ATree.expand] using hnc), ?_⟩
+          refine ⟨_, rfl, leaf_ok' cfg hm ht (by simpa [ATree.expand] using hnc), ?_⟩
           rw [ftAfter_of_ne ht]
           obtain ⟨typ, isAll, isBlack, all, fdA, fd, intA, ints, strA, strs⟩ := m
-          rfl
+          unfold Mask.endPath
+          split <;> rfl
       · simp only [hp, Bool.false_eq_true, ↓reduceIte] at hsh ⊢
         rw [Res.bind_eq_ok] at hsh
         obtain ⟨⟨stok, rest⟩, hnext, hsh⟩ := hsh
